@@ -237,9 +237,21 @@ func (g *gen) beginLine() string {
 		return fmt.Sprintf("begin %d autoassign host=%d h=%d n=%d", g.tid, h.Intn(2)*h.Intn(2), hid, 2+h.Intn(4))
 	}
 	switch k := h.Intn(20); {
-	case k < 8:
+	case k < 7:
 		return fmt.Sprintf("begin %d autoassign host=%d h=%d n=%d", g.tid, host, hid, 1+h.Intn(4))
 	case k < 10:
+		// half of the explicit assignments target an ordinal near the TAIL of an existing block's
+		// Unallocated queue (a released, garbage-collected address: the queue is no longer sorted)
+		if len(bids) > 0 && h.Chance(0.5) {
+			b := bids[h.Intn(len(bids))]
+			if u := w.Blocks[b].Unalloc; len(u) > 0 {
+				o := u[len(u)-1]
+				if h.Chance(0.3) {
+					o = u[h.Intn(len(u))]
+				}
+				return fmt.Sprintf("begin %d assignip host=%d h=%d b=%d o=%d", g.tid, host, hid, b, o)
+			}
+		}
 		return fmt.Sprintf("begin %d assignip host=%d h=%d b=%d o=%d", g.tid, host, hid, bid, h.Intn(size(bid)))
 	case k < 14:
 		rh := 0
